@@ -112,33 +112,18 @@ func build(tab []link, hist []int, opt route.MinimizeOption) (*route.Network, st
 
 var rep *report.Run
 
-// judge one query on one network; returns "" or symptom + detail
-func judge(tab []link, hist []int, opt route.MinimizeOption, net *route.Network, from, to geom.Point) (string, string, bool) {
-	present := map[int]bool{}
-	for _, li := range hist {
-		present[tab[li].A], present[tab[li].B] = true, true
-	}
-	nearest := func(p geom.Point) (int, bool) {
-		best, bd, tie := -1, math.Inf(1), false
-		for n := range nodePos {
-			if !present[n] {
-				continue
-			}
-			d := math.Hypot(nodePos[n].X-p.X, nodePos[n].Y-p.Y)
-			if math.Abs(d-bd) < 1e-9 {
-				tie = true
-			} else if d < bd {
-				best, bd, tie = n, d, false
-			}
+// fwCost is the Floyd-Warshall all-pairs minimum cost of the links of hist
+// (cached for the large grid network, which is queried thousands of times).
+var fwCache = map[string][][]float64{}
+
+func fwCost(tab []link, hist []int, opt route.MinimizeOption) [][]float64 {
+	key := ""
+	if len(nodePos) > 10 {
+		key = fmt.Sprintf("%p|%d|%v", &tab[0], len(hist), opt)
+		if c, ok := fwCache[key]; ok {
+			return c
 		}
-		return best, !tie
 	}
-	s, ok1 := nearest(from)
-	t, ok2 := nearest(to)
-	if !ok1 || !ok2 {
-		return "", "", true
-	}
-	// Floyd-Warshall
 	n := len(nodePos)
 	cost := make([][]float64, n)
 	for i := range cost {
@@ -170,6 +155,39 @@ func judge(tab []link, hist []int, opt route.MinimizeOption, net *route.Network,
 			}
 		}
 	}
+	if key != "" {
+		fwCache[key] = cost
+	}
+	return cost
+}
+
+// judge one query on one network; returns "" or symptom + detail
+func judge(tab []link, hist []int, opt route.MinimizeOption, net *route.Network, from, to geom.Point) (string, string, bool) {
+	present := map[int]bool{}
+	for _, li := range hist {
+		present[tab[li].A], present[tab[li].B] = true, true
+	}
+	nearest := func(p geom.Point) (int, bool) {
+		best, bd, tie := -1, math.Inf(1), false
+		for n := range nodePos {
+			if !present[n] {
+				continue
+			}
+			d := math.Hypot(nodePos[n].X-p.X, nodePos[n].Y-p.Y)
+			if math.Abs(d-bd) < 1e-9 {
+				tie = true
+			} else if d < bd {
+				best, bd, tie = n, d, false
+			}
+		}
+		return best, !tie
+	}
+	s, ok1 := nearest(from)
+	t, ok2 := nearest(to)
+	if !ok1 || !ok2 {
+		return "", "", true
+	}
+	cost := fwCost(tab, hist, opt)
 	var rt geom.MultiLineString
 	var dist, tm, sd, ed float64
 	if p := try(func() { rt, dist, tm, sd, ed = net.ShortestRoute(from, to) }); p != "" {
@@ -255,7 +273,7 @@ func main() {
 		return
 	}
 	rep = report.New("C19", tier, "model_checking")
-	rep.Rule = "E2: breadth-first search over all AddLink histories (each of the 10 candidate links between 5 irregularly placed nodes at most once; straight / detour geometry, stored direction and speed fixed per link by a table; tables with speeds {1,4} and uniform 0.1 (thorough: three {1,4} tables, uniform 0.1, {0.25,0.5}, uniform 25)) to depth 5 (7), deduplicated by (link set, node-id assignment); successor = replay on a fresh Network; in every distinct state, for both MinimizeOptions, all 49 ordered pairs of query points from {5 node positions, 2 off-network points} (pairs with a non-unique nearest node skipped); E3: in states with <= 3 links every query is additionally explored over all map-iteration orders of the instrumented route package with at most 1 deviation. every state of >= 2 links is also reached on one object with all queries asked before the last AddLink (queries as operations); Oracle: Floyd-Warshall minimum cost, chain validity, totals, emptiness. Non-trivial = states in which some node pair has at least two distinct routes."
+	rep.Rule = "E2: breadth-first search over all AddLink histories (each of the 10 candidate links between 5 irregularly placed nodes at most once; straight / detour geometry, stored direction and speed fixed per link by a table; tables with speeds {1,4} and uniform 0.1 (thorough: three {1,4} tables, uniform 0.1, {0.25,0.5}, uniform 25)) to depth 5 (7), deduplicated by (link set, node-id assignment); successor = replay on a fresh Network; in every distinct state, for both MinimizeOptions, all 49 ordered pairs of query points from {5 node positions, 2 off-network points} (pairs with a non-unique nearest node skipped); E3: in states with <= 3 links every query is additionally explored over all map-iteration orders of the instrumented route package with at most 1 deviation. every state of >= 2 links is also reached on one object with all queries asked before the last AddLink (queries as operations); an 8x8 street grid (64 nodes, 112 links: the node index has several leaves) with all 4096 ordered pairs of 64 off-node query points; Oracle: Floyd-Warshall minimum cost, chain validity, totals, emptiness. Non-trivial = states in which some node pair has at least two distinct routes."
 	type tabSpec struct {
 		variant int
 		speeds  [2]float64
@@ -411,6 +429,70 @@ func main() {
 				}
 			}
 		}
+	}
+	// a network large enough for the node index (an R-tree with 25..50 entries
+	// per node) to have several leaves: an 8x8 street grid of 64 slightly
+	// displaced nodes and 112 links, 64 query points off the nodes, all 4096
+	// ordered pairs, both options
+	{
+		save := nodePos
+		nodePos = nil
+		for j := 0; j < 8; j++ {
+			for i := 0; i < 8; i++ {
+				nodePos = append(nodePos, geom.Point{X: float64(100*i + (i*7+j*3)%5), Y: float64(100*j + (i*3+j*5)%7)})
+			}
+		}
+		var tab []link
+		add := func(a, b int) {
+			g := geom.LineString{nodePos[a], nodePos[b]}
+			sp := []float64{1, 4, 2}[(a+2*b)%3]
+			tab = append(tab, link{a, b, g, sp, math.Hypot(g[1].X-g[0].X, g[1].Y-g[0].Y)})
+		}
+		for j := 0; j < 8; j++ {
+			for i := 0; i < 8; i++ {
+				if i < 7 {
+					add(8*j+i, 8*j+i+1)
+				}
+				if j < 7 {
+					add(8*j+i, 8*(j+1)+i)
+				}
+			}
+		}
+		h := make([]int, len(tab))
+		for i := range h {
+			h[i] = i
+		}
+		var qs []geom.Point
+		for j := 0; j < 8; j++ {
+			for i := 0; i < 8; i++ {
+				qs = append(qs, geom.Point{X: float64(100*i + 37), Y: float64(100*j - 21)})
+			}
+		}
+		for _, opt := range []route.MinimizeOption{route.Distance, route.Time} {
+			net, p := build(tab, h, opt)
+			if p != "" {
+				rep.Violation("AddLink|panic", map[string]interface{}{"history": "8x8 grid", "panic": p})
+				continue
+			}
+			states++
+			for _, from := range qs {
+				for _, to := range qs {
+					sym, det, skip := judge(tab, h, opt, net, from, to)
+					queriesRun++
+					if skip {
+						skipped++
+					}
+					if sym != "" {
+						o := "Distance"
+						if opt == route.Time {
+							o = "Time"
+						}
+						rep.Violation(fmt.Sprintf("ShortestRoute|%s|grid-8x8|%s", o, sym), map[string]interface{}{"network": "8x8 grid, node (i,j) at (100i+(7i+3j)%5, 100j+(3i+5j)%7), links between grid neighbours, speeds {1,4,2}[(a+2b)%3]", "from": from, "to": to, "observed": det})
+					}
+				}
+			}
+		}
+		nodePos = save
 	}
 	if rep.Expired() {
 		rep.Cap("wall budget expired")
